@@ -12,6 +12,70 @@ Open Scope N_scope.
 Definition no_calls (s : st) : Prop :=
   Forall (fun ev => match ev with ECall _ => False | _ => True end) (s_trace s).
 
+
+(* ---- helpers ---- *)
+Lemma sock_data_reads_data l : sock_data l = reads_data l.
+Proof.
+  induction l as [|[bs| |k] l IH]; cbn [sock_data reads_data]; [reflexivity| |exact IH|exact IH].
+  rewrite IH. reflexivity.
+Qed.
+
+Lemma no_calls_after_read s evs tls :
+  only_reads evs ->
+  s_trace s = evs ++ EFlush :: rev (map EWrite (frame_pkts (s_lim s) 0 (greeting_body tls))) ->
+  no_calls s.
+Proof.
+  intros Hon Htr. unfold no_calls. change (Forall no_call (s_trace s)). rewrite Htr.
+  apply Forall_app. split; [apply no_call_reads; exact Hon|].
+  constructor; [exact I | apply no_call_writes].
+Qed.
+
+(* the plaintext phase up to and including set_seq *)
+Lemma phase1_prefix cfg s q req rest ssl user :
+  fresh s -> q < 256 -> inbound s = frame (s_lim s) q req ++ rest ->
+  client_handshake req false = HOk ssl user ->
+  exists s3 evs,
+    only_reads evs /\ clean s3 /\ s_lim s3 = s_lim s /\
+    s_seq s3 = (last_seq (s_lim s) q req + 1) mod 256 /\
+    inbound s3 = rest /\ all_data (s_reads s3) /\
+    s_trace s3 = evs ++ EFlush :: rev (map EWrite (frame_pkts (s_lim s) 0 (greeting_body (cfg_tls cfg)))) /\
+    init_phase1 cfg s =
+      (if ssl then
+         if cfg_tls cfg then
+           fun s => (ROk (P1Switch (s_buf s ++ sock_data (s_reads s))), set_buf [] s)
+         else fail EInvalidData
+       else ret (P1Plain user)) s3 /\
+    forall errtab, init errtab cfg s =
+      (if ssl then fail EInvalidData else auth_phase errtab cfg user) s3.
+Proof.
+  intros Hfresh Hq Hin Hhs.
+  destruct (init_read cfg s q req rest Hfresh Hq Hin)
+    as (s0 & s1 & s2 & evs & Hwa & Hfl & Hn & Hon & Hcl & El & Hin2 & Hall2 & Htr).
+  destruct Hcl as (C1 & C2 & C3 & C4 & C5 & C6).
+  set (q' := (last_seq (s_lim s) q req + 1) mod 256).
+  exists (set_seq_cont q' (s_cont s2) s2), evs.
+  split; [exact Hon|].
+  split.
+  { unfold clean. cbn [set_seq_cont s_fault s_lim s_seq s_tw s_cont s_park].
+    repeat split; try assumption. unfold q'. apply N.mod_lt. lia. }
+  cbn [set_seq_cont s_lim s_seq s_reads s_trace].
+  split; [exact El|]. split; [reflexivity|]. split; [exact Hin2|]. split; [exact Hall2|].
+  split; [exact Htr|].
+  split.
+  - unfold init_phase1.
+    rewrite (bind_ok _ _ _ _ _ Hwa). cbv beta.
+    rewrite (bind_ok _ _ _ _ _ Hfl). cbv beta.
+    rewrite (bind_ok _ _ _ _ _ Hn). cbv beta iota.
+    rewrite Hhs. cbv beta iota.
+    reflexivity.
+  - intro errtab. unfold init.
+    rewrite (bind_ok _ _ _ _ _ Hwa). cbv beta.
+    rewrite (bind_ok _ _ _ _ _ Hfl). cbv beta.
+    rewrite (bind_ok _ _ _ _ _ Hn). cbv beta iota.
+    rewrite Hhs. cbv beta iota.
+    destruct ssl; reflexivity.
+Qed.
+
 (* the SSL request is consumed as one plaintext packet; everything the client sent after it --
    whether it was coalesced into the same read(s) or arrives later -- is what the engine gets *)
 Theorem tls_routing cfg s q req user tls_bytes :
@@ -21,7 +85,19 @@ Theorem tls_routing cfg s q req user tls_bytes :
   exists s1,
     init_phase1 cfg s = (ROk (P1Switch tls_bytes), s1) /\
     s_buf s1 = [] /\ no_calls s1 /\ s_seq s1 = (last_seq (s_lim s) q req + 1) mod 256.
-Admitted.
+Proof.
+  intros Hfresh Hq Htls Hin Hhs.
+  destruct (phase1_prefix cfg s q req tls_bytes true user Hfresh Hq Hin Hhs)
+    as (s3 & evs & Hon & Hcl & El & Eq & Hin3 & Hall & Htr & Hp1 & _).
+  rewrite Htls in Hp1. cbv beta iota in Hp1.
+  exists (set_buf [] s3). split.
+  { rewrite Hp1. rewrite sock_data_reads_data. unfold inbound in Hin3. rewrite Hin3. reflexivity. }
+  split; [reflexivity|].
+  split.
+  { apply (no_calls_after_read (set_buf [] s3) evs (cfg_tls cfg) Hon).
+    cbn [set_buf s_trace s_lim]. rewrite El. exact Htr. }
+  cbn [set_buf s_seq]. exact Eq.
+Qed.
 
 (* TLS requested, none configured: refused with an error before after_authentication *)
 Theorem tls_refused fpext fptrunc errtab cfg sc plain s q req user tls_bytes :
@@ -29,7 +105,15 @@ Theorem tls_refused fpext fptrunc errtab cfg sc plain s q req user tls_bytes :
   inbound s = frame (s_lim s) q req ++ tls_bytes ->
   client_handshake req false = HOk true user ->
   exists s1, run_on_tls fpext fptrunc errtab cfg sc plain s = (RErr EInvalidData, s1) /\ no_calls s1.
-Admitted.
+Proof.
+  intros Hfresh Hq Htls Hin Hhs.
+  destruct (phase1_prefix cfg s q req tls_bytes true user Hfresh Hq Hin Hhs)
+    as (s3 & evs & Hon & Hcl & El & Eq & Hin3 & Hall & Htr & Hp1 & _).
+  rewrite Htls in Hp1. cbv beta iota in Hp1.
+  exists s3. split.
+  { unfold run_on_tls. rewrite Hp1. reflexivity. }
+  apply (no_calls_after_read s3 evs (cfg_tls cfg) Hon). rewrite El. exact Htr.
+Qed.
 
 (* after the switch: the second handshake response (parsed with after_tls = true) provides the user
    name given to after_authentication; accept -> OK with the next sequence id *)
@@ -43,7 +127,34 @@ Theorem tls_phase2_accept errtab cfg s2 q hs user ssl rest :
       EFlush :: rev (map EWrite (frame_pkts (s_lim s2) ((last_seq (s_lim s2) q hs + 1) mod 256) (ok_body 0 0 0)))
       ++ ECall (CAuth user) :: rev rd ++ s_trace s2 /\
     inbound s3 = rest /\ all_data (s_reads s3) /\ clean s3 /\ s_lim s3 = s_lim s2.
-Admitted.
+Proof.
+  intros Hcl H24 Hall Hq Hauth Hin Hhs.
+  pose proof Hcl as (C1 & C2 & C3 & C4 & C5 & C6).
+  destruct (next_frame s2 q hs rest C2 H24 Hq Hall Hin) as (sa & Hn & Hina & Halla & Hpost).
+  destruct Hpost as (P1 & P2 & P3 & P4 & P5 & P6 & P7 & (evs & Pt & Pon) & _).
+  set (q' := (last_seq (s_lim s2) q hs + 1) mod 256) in *.
+  set (s4 := upd_trace (ECall (CAuth user)) (set_seq_cont q' (s_cont sa) sa)).
+  assert (Hcl4 : clean s4).
+  { unfold clean, s4. cbn [upd_trace set_seq_cont s_fault s_lim s_seq s_tw s_cont s_park].
+    rewrite P1, P2, P3, P5, P6. repeat split; try assumption. unfold q'. apply N.mod_lt. lia. }
+  destruct (send_flush (ok_body 0 0 0) s4 Hcl4)
+    as (s5 & s' & Hs & Hfl & Hcl' & El' & Eb' & Er' & Etr'); [unfold ok_body; discriminate|].
+  exists s', (rev evs).
+  split.
+  { unfold init_phase2.
+    rewrite (bind_ok _ _ _ _ _ Hn). cbv beta iota.
+    rewrite Hhs. cbv beta iota.
+    unfold auth_phase. rewrite Hauth.
+    change ((send (ok_body 0 0 0) ;;; flush) s4 = (ROk tt, s')).
+    rewrite (bind_ok _ _ _ _ _ Hs). exact Hfl. }
+  split. { unfold only_reads. apply Forall_rev. exact Pon. }
+  split.
+  { rewrite Etr'. unfold s4. cbn [upd_trace set_seq_cont s_lim s_seq s_trace].
+    rewrite P2, Pt, rev_involutive. reflexivity. }
+  split. { unfold inbound in *. rewrite Eb', Er'. exact Hina. }
+  split; [rewrite Er'; exact Halla|]. split; [exact Hcl'|].
+  rewrite El'. exact P2.
+Qed.
 
 (* a client that does not request TLS is served by the TLS-aware entry point exactly as by the
    plain one *)
@@ -52,4 +163,16 @@ Theorem tls_plain_same fpext fptrunc errtab cfg sc plain s q hs user rest :
   inbound s = frame (s_lim s) q hs ++ rest ->
   client_handshake hs false = HOk false user ->
   run_on_tls fpext fptrunc errtab cfg sc plain s = run_on fpext fptrunc errtab cfg sc s.
-Admitted.
+Proof.
+  intros Hfresh Hq Hin Hhs.
+  destruct (phase1_prefix cfg s q hs rest false user Hfresh Hq Hin Hhs)
+    as (s3 & evs & Hon & Hcl & El & Eq & Hin3 & Hall & Htr & Hp1 & Hinit).
+  cbv beta iota in Hp1. specialize (Hinit errtab). cbv beta iota in Hinit.
+  unfold run_on_tls, run_on. rewrite Hp1. unfold ret.
+  unfold bind at 1 3. rewrite Hinit. reflexivity.
+Qed.
+
+Print Assumptions tls_routing.
+Print Assumptions tls_refused.
+Print Assumptions tls_phase2_accept.
+Print Assumptions tls_plain_same.
